@@ -255,6 +255,17 @@ def step (st : St) (ts : List String) : St × String :=
           (st, s!"reject segment-roundtrip-mismatch {ns} {es}")
         else (st, "ok")
       | _, _ => (st, "reject bad-output seg")
+  | ["toseg", ns, es] => match parseIds ns, parseIds es, out with
+      -- a well-formed serialized path (k+1 nodes, k edges) must come back as a chain with exactly those nodes and edges
+      | some ns, some es, ["panic"] => (st, s!"reject toseg-index-panic nodes={natList ns} edges={natList es}")
+      | some ns, some es, [gn, ge] =>
+        if ns.length != es.length + 1 then (st, "ok")
+        else match (field gn "nodes").bind parseList, (field ge "edges").bind parseList with
+          | some gn, some ge =>
+            if (gn == ns && ge == es) || (gn == ns.reverse && ge == es.reverse) then (st, "ok")
+            else (st, s!"reject toseg-mismatch got nodes={natList gn} edges={natList ge}")
+          | _, _ => (st, "reject bad-output toseg")
+      | _, _, _ => (st, "reject bad-output toseg")
   | ["tsbfs", c, d, md, root, filt] => (st, judgeTraverse st "tsbfs" c d md root filt out)
   | ["tsdfs", c, d, md, root, filt] => (st, judgeTraverse st "tsdfs" c d md root filt out)
   | ["zone", md, ids] => match md.toInt?, parseIds ids, out with
